@@ -123,6 +123,18 @@ def spell(text, variant=0):
     return "BASE <http://example.org/dir/doc>\nPREFIX x: <urn:e:>\n" + text.replace("<urn:e:p>", "x:p").replace("<urn:e:b>", "x:b")
 
 
+def pushdown_matters(where, triples):
+    """dynamic form of the push-down predicate (see C04): does evaluating the pattern as a fully top-down engine change the algebra's answer?"""
+    ts = set(triples)
+    ctx = R.Ctx(dict(default=ts, named={}), ts)
+    vars_ = sorted(R.in_scope(where))
+    key = lambda sols: Counter(frozenset((v, R.rkey(m[v])) for v in vars_ if m.get(v) is not None) for m in sols)
+    try:
+        return key(R.eval_seeded(where, ctx, {})) != key(R.eval_pattern(where, ctx))
+    except (R.Latitude, R.Budget, ValueError, R.Err):
+        return True
+
+
 def minus_can_have_disjoint_domain(group, depth=0):
     """input predicate of C15-initBindings-seen-by-MINUS: the pushed binding only matters to a MINUS whose right side may share no
     bound variable with the solution it is subtracted from (then the extra variable makes the domains intersect). A MINUS whose
@@ -192,6 +204,9 @@ def run_case(case, st=None):
             w2 = swap_operands(where, rng)
             if not case.get("no_carve") and Q.pushdown_triggers(w2):
                 st.setdefault("_known", {})["C15-swap-under-pushdown"] = 1; return None
+            if not case.get("no_carve") and (pushdown_matters(where, triples) or pushdown_matters(w2, triples)):
+                st.setdefault("_known", {})["C15-swap-under-pushdown"] = 1
+                st.setdefault("_count", {})["pushdown_found_by_probe_only"] = 1; return None
             t2 = query_text(w2)
             other = ms(g.query(t2))
             if other != base: return differ("operand-swap", other, t2)
